@@ -2,6 +2,6 @@ SPECIFICATION TSpec
 CHECK_DEADLOCK FALSE
 CONSTANTS
   Obj = {1, 2, 3, 4, 5, 6, 7, 8}
-  Member = {"value", "ro", "alt", "us", "u8", "ll", "fl", "flag"}
+  Member = {"value", "ro", "alt", "us", "u8", "ll", "fl", "flag", "tint"}
   ReadOnly = {"ro"}
   Val = {0}
